@@ -237,6 +237,16 @@ pub fn c10(opts: &Opts) -> Report {
                 if ctx.rng.chance(1, 3) { v.push(Seg::Lit(" ".repeat(1 + ctx.rng.below(3)))); }
                 v
             };
+            // a lone split (the fast path) on inputs beyond the cache admission limits (> 10 000 bytes, > 1 000 parts)
+            if i % 20 == 1 {
+                let k = (i / 20) as usize;
+                let xin = if k % 2 == 0 { format!("{},tail,{}", "z".repeat(10_001), "y".repeat(50)) } else { (0..1_002).map(|n| format!("p{n}")).collect::<Vec<_>>().join(",") };
+                let text = ["{split:,:1}", "a {split:,:-1} b", "{split:,:0..2}", "{split:,:..1}<{split:,:1}>"][(k / 2) % 4];
+                let run = |d: bool| match real::parse_with_debug(text, Some(d)) { real::Parsed::Ok(t) => real::format(&t, &xin), real::Parsed::Err(_) => Out::Err, real::Parsed::Panic => Out::Panic };
+                let (a, b) = (run(false), run(true));
+                ctx.rep.bump("lone_split_beyond_cache_limits");
+                if a != b { viol(ctx, "property", format!("C10: {text} on a {}-byte input with {} parts: tracing on {} vs off {}", xin.len(), xin.split(',').count(), trunc(&b.show()), trunc(&a.show())), vec![("template", text.to_string()), ("input_description", format!("{} bytes, {} comma-separated parts", xin.len(), xin.split(',').count())), ("input", xin.clone()), ("theorem", "C10_transparent".into())]); return; }
+            }
             // an excluded execution first (a pad width no machine can allocate, traced): whatever it does, the ordinary
             // calls that follow are inside the property again, traced and untraced alike
             if i % 20 == 17 {
@@ -525,6 +535,11 @@ pub fn c20(opts: &Opts) -> Report {
             { let before = tpl.is_debug(); let c1 = tpl.clone().with_debug(!before); if tpl.is_debug() != before || c1.is_debug() == before { bad = Some("with_debug on a clone changed the source template".into()); }
               let mut src = tpl.clone(); let c2 = src.clone(); src.set_debug(!c2.is_debug()); if c2.is_debug() == src.is_debug() { bad = Some("set_debug on the source changed an earlier clone".into()); } }
             let mut t4 = tpl.clone(); t4.set_debug(!d); t4.set_debug(d); if t4.is_debug() != d { bad = Some("last set_debug does not win".into()); }
+            // an in-place refresh copies everything, the flag included
+            { let src = tpl.clone().with_debug(d); let mut slot = match real::parse("other {upper} text") { real::Parsed::Ok(o) => o.with_debug(!d), _ => tpl.clone().with_debug(!d) };
+              slot.clone_from(&src);
+              if slot.is_debug() != d || slot.template_string() != text || sections_from_real(&slot) != secs { bad = Some("clone_from does not copy the whole template (text, sections, debug flag)".into()); }
+              let mut v = vec![tpl.clone().with_debug(!d)]; v.clone_from(&vec![src.clone()]); if v[0].is_debug() != d { bad = Some("Vec::clone_from does not copy the debug flag".into()); } }
             if sections_from_real(&t3) != secs || t3.template_string() != text { bad = Some("with_debug changed the structure".into()); }
             // both text accessors, in every debug state an object can be put into
             for dd in [true, false] { let mut t5 = tpl.clone(); t5.set_debug(dd); let t6 = tpl.clone().with_debug(dd);
@@ -533,6 +548,8 @@ pub fn c20(opts: &Opts) -> Report {
                 viol(ctx, "property", format!("C20: {text:?}: {b}"), vec![("template", text.clone()), ("observed", b), ("theorem", "C20_*".into())]);
                 return;
             }
+            // a call that fails after it has produced output, on this thread, right before the call under test
+            if i % 4 == 2 { if let real::Parsed::Ok(f) = real::parse("items: {sort} / {upper}") { let _ = real::format(&f, "x"); let _ = real::format(&f.with_debug(true), "y"); } ctx.rep.bump("after_a_failed_format"); }
             // concat law
             let x = gens::text(&mut ctx.rng, 4);
             let whole = real::format(&tpl, &x);
@@ -722,6 +739,10 @@ pub fn c05(opts: &Opts) -> Report {
                     vec![("{split:,:..|sort} / {split:,:..|map:{upper}}", "pear,apple,fig"), ("{split:,:..|map:{upper}} / {split:,:..|sort:desc}", "pear,apple,fig")],
                     vec![("{split:,:..|join: }", "a b,c"), ("{split: :..|join:,}", "a b c"), ("{split: :1}", "a b c")],
                     vec![("{replace:s/o/0/}", "foo boo"), ("{replace:s/o/0/g}", "foo boo"), ("{replace:s/O/0/i}", "foo boo"), ("{replace:s/o/0/}", "foo boo")],
+                    // a plain-text pattern with $-references in the replacement, before and after another operation compiles the same text
+                    vec![("{replace:s/USD/$$/}", "5 USD"), ("{split: :..|filter:USD|join: }", "5 USD"), ("{replace:s/USD/$$/}", "5 USD"), ("{replace:s/cat/<$0>/g}", "cat dog cat"), ("{regex_extract:cat}", "cat dog"), ("{replace:s/cat/<$0>/g}", "cat dog cat")],
+                    // a text cut off inside a sequence, then texts that would complete it
+                    vec![("{strip_ansi}", "abc\u{1b}[3"), ("{strip_ansi}", "1mhello"), ("{strip_ansi}", "a,b\u{1b}]0;title"), ("{strip_ansi}", "plain text"), ("{split:,:..|map:{strip_ansi}}", "0;1mX\u{1b}[3,0;1mX\u{1b}[3")],
                     // one pattern text with and without the x flag (white space in the pattern is then ignored), both orders, and as a filter
                     vec![("{replace:s/o w/_/}", "how o w ow"), ("{replace:s/o w/_/x}", "how o w ow"), ("{split:,:..|filter:o w}", "how o w,ow"), ("{replace:s/o w/_/}", "how o w ow")],
                     vec![("{replace:s/qz a b/X/x}", "qzab qz a b"), ("{replace:s/qz a b/X/}", "qzab qz a b"), ("{split:,:..|filter_not:qz a b}", "qzab,qz a b"), ("{replace:s/qz a b/X/xi}", "QZAB qz a b")],
@@ -962,6 +983,28 @@ pub fn c17(opts: &Opts) -> Report {
                 if let Some(b) = bad.first() {
                     viol(ctx, "property", format!("C17: {b}; alone every one of these calls gives its documented result"), vec![("round", format!("{}:{}", opts.seed, i)), ("threads", format!("{}", nmap + nplain + nnoisy)), ("observed", b.clone()), ("theorem", "C17_concurrent_formats".into())]);
                 }
+                // sixteen threads take substrings of non-ASCII texts with negative and out-of-range bounds at the same moment
+                {
+                    let cases: Vec<(&str, &str, String)> = vec![("{substring:-5..}", "añb日cédef", "cédef".into()), ("{substring:-1}", "xyé", "é".into()), ("{substring:..-2}", "日本語ab", "日本語".into()), ("{substring:-9..-2}", "éé", "".into()), ("{substring:7}", "aé", "é".into()), ("{substring:-3..-1}", "añb日c", "b日".into())];
+                    let bar2 = std::sync::Barrier::new(16);
+                    let bad2: Vec<String> = std::thread::scope(|sc| {
+                        let hs: Vec<_> = (0..16).map(|t| { let (bar2, cases) = (&bar2, &cases); sc.spawn(move || { bar2.wait(); for r in 0..300 { let (tp, x, want) = &cases[(t + r) % cases.len()]; let o = real::parse_format(tp, x); if o != Out::Ok(want.clone()) { return Some(format!("thread {t}, call {r}: format({tp:?}, {x:?}) = {} but alone it is {want:?}", o.show())); } } None }) }).collect();
+                        hs.into_iter().filter_map(|h| h.join().unwrap_or(Some("a thread died".to_string()))).collect()
+                    });
+                    ctx.rep.add("concurrent_calls", 16 * 300); ctx.rep.bump("contended_substrings");
+                    if let Some(b) = bad2.first() { viol(ctx, "property", format!("C17: {b}"), vec![("round", format!("{}:{}", opts.seed, i)), ("threads", "16".into()), ("observed", b.clone()), ("theorem", "C17_concurrent_formats".into())]); }
+                }
+                // one thread runs a traced call that dies in an excluded execution (unallocatable pad width) while others trace ordinary calls
+                {
+                    let bad3: Vec<String> = std::thread::scope(|sc| {
+                        let mut hs = Vec::new();
+                        hs.push(sc.spawn(move || { for _ in 0..3 { if let real::Parsed::Ok(t) = real::parse_with_debug("{pad:18446744073709551615:é}", Some(true)) { let _ = real::format(&t, "a"); } std::thread::sleep(std::time::Duration::from_millis(2)); } None }));
+                        for t in 0..8 { hs.push(sc.spawn(move || { for r in 0..60 { let o = match real::parse_with_debug("{upper}", Some(true)) { real::Parsed::Ok(tp) => real::format(&tp, "hello"), _ => Out::Err }; if o != Out::Ok("HELLO".into()) { return Some(format!("thread {t}, traced call {r}: {{upper}} on \"hello\" gives {}", o.show())); } std::thread::sleep(std::time::Duration::from_micros(200)); } None })); }
+                        hs.into_iter().filter_map(|h| h.join().unwrap_or(Some("a thread died".to_string()))).collect()
+                    });
+                    ctx.rep.bump("traced_calls_next_to_a_dying_one");
+                    if let Some(b) = bad3.first() { viol(ctx, "property", format!("C17: {b}; alone it gives HELLO"), vec![("round", format!("{}:{}", opts.seed, i)), ("observed", b.clone()), ("theorem", "C17_concurrent_formats".into())]); }
+                }
                 // and afterwards, on this thread: a text cut off inside a sequence leaves nothing behind for the next call
                 for x in ["\u{1b}]0;title\u{1b}", "\u{1b}]8;;\u{1b}", "\u{1b}Pq#0\u{1b}"] { let _ = real::parse_format("{strip_ansi}", x);
                     let o = real::parse_format("[{strip_ansi}]", "\u{1b}[32mOK\u{1b}[0m DONE");
@@ -1093,6 +1136,31 @@ pub fn c19(opts: &Opts) -> Report {
                     if got != Out::Ok(want.clone()) {
                         viol(ctx, "property", format!("C19: a text of {n} runs separated by escape sequences: strip_ansi returns {} bytes, the text alone has {}", got.show().len(), want.len()), vec![("template", text.to_string()), ("input_description", format!("t<k>é + one of 8 sequences, k < {n}")), ("input", xin), ("theorem", "C19_strip_decorate".into())]);
                         return;
+                    }
+                }
+                return;
+            }
+            if i % 50 == 29 {
+                // strip_ansi directly after an operation whose last argument is a pattern: it is the next operation, not part of the pattern
+                let w = format!("w{}é", i % 97);
+                let xin = format!("\u{1b}[31m{w}\u{1b}[0m,\u{1b}[1mzz\u{1b}[0m");
+                for (text, want) in [("{regex_extract:.+|strip_ansi}".to_string(), format!("{w},zz")), ("{filter:.|strip_ansi}".to_string(), format!("{w},zz")),
+                                     ("{filter_not:^$|strip_ansi|upper}".to_string(), format!("{},ZZ", w.to_uppercase())), ("{split:,:..|map:{regex_extract:.+|strip_ansi|upper}|join:,}".to_string(), format!("{},ZZ", w.to_uppercase()))] {
+                    let got = real::parse_format(&text, &xin);
+                    ctx.rep.bump("strip_after_a_pattern_argument");
+                    if got != Out::Ok(want.clone()) { viol(ctx, "property", format!("C19: {text} on {xin:?} = {} but stripping the selected text gives {want:?}", got.show()), vec![("template", text.clone()), ("input", xin.clone()), ("observed", got.show()), ("expected", want), ("theorem", "C19_strip_decorate / C02_all_spellings".into())]); return; }
+                }
+                return;
+            }
+            if i % 50 == 13 {
+                // tracing on: the text that is stripped is the input, not a printable rendering of it
+                let w = gens::word(&mut ctx.rng);
+                for xin in [format!("\u{1b}[31m{w}\u{1b}[0m"), format!("{w}\u{7}x\u{1b}]0;t\u{7}y"), format!("\u{1b}(B{w}\u{8}")] {
+                    for text in ["{strip_ansi}", "<{strip_ansi|upper}>", "{split:,:..|map:{strip_ansi}}"] {
+                        let run = |d: bool| match real::parse_with_debug(text, Some(d)) { real::Parsed::Ok(t) => real::format(&t, &xin), real::Parsed::Err(_) => Out::Err, real::Parsed::Panic => Out::Panic };
+                        let (a, b) = (run(false), run(true));
+                        ctx.rep.bump("traced_stripping");
+                        if a != b { viol(ctx, "property", format!("C19: {text} on {xin:?}: with tracing on {} but off {}", b.show(), a.show()), vec![("template", text.to_string()), ("input", xin.clone()), ("observed", b.show()), ("expected", a.show()), ("theorem", "C19_strip_decorate / C10_transparent".into())]); return; }
                     }
                 }
                 return;
